@@ -43,3 +43,178 @@ package eth2wrap
 //@ ensures ncalls(fork) == len(clients) + ite(ncalls(runForkJoin) == 2, len(fallbacks), 0)
 //@ loop 1 invariant ncalls(fork) == atentry(ncalls(fork)) + $i && roundForks == $i
 //@ loop 2 invariant roundForks == atentry(roundForks)
+
+// ---- C20: duties cache -----------------------------------------------------------------------
+
+//@ func slices.Contains
+//@ assume-contract standard library: reports whether v is present in s
+//@ pure
+//@ ensures result <==> exists(i, 0, len(s), s[i] == v)
+
+//@ func (c *DutiesCache) fetchProposerDuties
+//@ props C20
+//@ ensures r1 ==> has(c.proposerDuties.duties, epoch) && has(c.proposerDuties.metadata, epoch) && has(c.proposerDuties.requestedIdxs, epoch)
+//@ ensures r1 ==> r0.duties == c.proposerDuties.duties[epoch] && r0.requestedIdxs == c.proposerDuties.requestedIdxs[epoch] && r0.metadata == c.proposerDuties.metadata[epoch]
+//@ ensures !r1 ==> !has(c.proposerDuties.duties, epoch) || !has(c.proposerDuties.metadata, epoch) || !has(c.proposerDuties.requestedIdxs, epoch)
+
+//@ func (c *DutiesCache) storeOrAmendProposerDuties
+//@ props C20
+//@ atomic
+//@ ensures !has(old(c.proposerDuties.duties), epoch) ==> r1 && c.proposerDuties.duties[epoch] == dutiesForEpoch.duties && c.proposerDuties.requestedIdxs[epoch] == dutiesForEpoch.requestedIdxs && c.proposerDuties.metadata[epoch] == dutiesForEpoch.metadata
+//@ ensures has(old(c.proposerDuties.duties), epoch) ==> forall(a, 0, len(old(c.proposerDuties.duties)[epoch]), c.proposerDuties.duties[epoch][a] == old(c.proposerDuties.duties)[epoch][a]) && len(c.proposerDuties.duties[epoch]) >= len(old(c.proposerDuties.duties)[epoch])
+//@ ensures has(old(c.proposerDuties.duties), epoch) ==> forall(a, 0, len(old(c.proposerDuties.requestedIdxs)[epoch]), c.proposerDuties.requestedIdxs[epoch][a] == old(c.proposerDuties.requestedIdxs)[epoch][a])
+//@ ensures has(old(c.proposerDuties.duties), epoch) ==> forall(r, 0, len(dutiesForEpoch.requestedIdxs), slices.Contains(old(c.proposerDuties.requestedIdxs)[epoch], dutiesForEpoch.requestedIdxs[r]) || exists(a, 0, len(c.proposerDuties.requestedIdxs[epoch]), c.proposerDuties.requestedIdxs[epoch][a] == dutiesForEpoch.requestedIdxs[r]))
+//@ ensures has(old(c.proposerDuties.duties), epoch) ==> forall(r, 0, len(dutiesForEpoch.requestedIdxs), forall(j, 0, len(dutiesForEpoch.duties), !slices.Contains(old(c.proposerDuties.requestedIdxs)[epoch], dutiesForEpoch.requestedIdxs[r]) && dutiesForEpoch.duties[j].ValidatorIndex == dutiesForEpoch.requestedIdxs[r] ==> exists(i, 0, len(c.proposerDuties.duties[epoch]), c.proposerDuties.duties[epoch][i] == dutiesForEpoch.duties[j])))
+//@ ensures all(e2, eth2p0.Epoch, e2 != epoch ==> c.proposerDuties.duties[e2] == old(c.proposerDuties.duties)[e2] && c.proposerDuties.requestedIdxs[e2] == old(c.proposerDuties.requestedIdxs)[e2])
+//@ loop 1 invariant forall(r, 0, $i, !slices.Contains(alreadyRequestedIdxs, dutiesForEpoch.requestedIdxs[r]) ==> exists(n, 0, len(newlyFetchedIdxs), newlyFetchedIdxs[n] == dutiesForEpoch.requestedIdxs[r]))
+//@ loop 2 invariant forall(n, 0, $i, forall(j, 0, len(dutiesForEpoch.duties), dutiesForEpoch.duties[j].ValidatorIndex == newlyFetchedIdxs[n] ==> exists(i, 0, len(newlyFetchedDuties), newlyFetchedDuties[i] == dutiesForEpoch.duties[j])))
+//@ loop 3 invariant forall(n, 0, $i2, forall(j, 0, len(dutiesForEpoch.duties), dutiesForEpoch.duties[j].ValidatorIndex == newlyFetchedIdxs[n] ==> exists(i, 0, len(newlyFetchedDuties), newlyFetchedDuties[i] == dutiesForEpoch.duties[j])))
+//@ loop 3 invariant forall(j, 0, $i, dutiesForEpoch.duties[j].ValidatorIndex == idx ==> exists(i, 0, len(newlyFetchedDuties), newlyFetchedDuties[i] == dutiesForEpoch.duties[j]))
+
+//@ func (c *DutiesCache) trimBeforeProposerDuties
+//@ props C20
+//@ atomic
+//@ ensures forallk(k, c.proposerDuties.duties, k >= epoch && has(old(c.proposerDuties.duties), k) && c.proposerDuties.duties[k] == old(c.proposerDuties.duties)[k])
+//@ ensures forallk(k, old(c.proposerDuties.duties), k >= epoch ==> has(c.proposerDuties.duties, k))
+//@ ensures forallk(k, c.proposerDuties.requestedIdxs, k >= epoch && has(old(c.proposerDuties.requestedIdxs), k) && c.proposerDuties.requestedIdxs[k] == old(c.proposerDuties.requestedIdxs)[k])
+//@ ensures forallk(k, old(c.proposerDuties.requestedIdxs), k >= epoch ==> has(c.proposerDuties.requestedIdxs, k))
+//@ ensures forallk(k, c.proposerDuties.metadata, k >= epoch && has(old(c.proposerDuties.metadata), k))
+//@ loop 1 invariant forallk(k, c.proposerDuties.duties, has(old(c.proposerDuties.duties), k) && c.proposerDuties.duties[k] == old(c.proposerDuties.duties)[k]) && forall(t, 0, $i, $ks[t] < epoch ==> !has(c.proposerDuties.duties, $ks[t])) && forallk(k, old(c.proposerDuties.duties), k >= epoch ==> has(c.proposerDuties.duties, k))
+//@ loop 1 invariant c.proposerDuties.requestedIdxs == old(c.proposerDuties.requestedIdxs) && c.proposerDuties.metadata == old(c.proposerDuties.metadata) && $m == old(c.proposerDuties.duties)
+//@ loop 2 invariant forallk(k, c.proposerDuties.metadata, has(old(c.proposerDuties.metadata), k)) && forall(t, 0, $i, $ks[t] < epoch ==> !has(c.proposerDuties.metadata, $ks[t])) && $m == old(c.proposerDuties.metadata)
+//@ loop 2 invariant c.proposerDuties.requestedIdxs == old(c.proposerDuties.requestedIdxs) && c.proposerDuties.duties == atentry(c.proposerDuties.duties)
+//@ loop 3 invariant forallk(k, c.proposerDuties.requestedIdxs, has(old(c.proposerDuties.requestedIdxs), k) && c.proposerDuties.requestedIdxs[k] == old(c.proposerDuties.requestedIdxs)[k]) && forall(t, 0, $i, $ks[t] < epoch ==> !has(c.proposerDuties.requestedIdxs, $ks[t])) && forallk(k, old(c.proposerDuties.requestedIdxs), k >= epoch ==> has(c.proposerDuties.requestedIdxs, k)) && $m == old(c.proposerDuties.requestedIdxs)
+//@ loop 3 invariant c.proposerDuties.duties == atentry(c.proposerDuties.duties) && c.proposerDuties.metadata == atentry(c.proposerDuties.metadata)
+
+//@ func (c *DutiesCache) trimAfterProposerDuties
+//@ props C20
+//@ atomic
+//@ ensures forallk(k, c.proposerDuties.duties, k <= epoch && has(old(c.proposerDuties.duties), k) && c.proposerDuties.duties[k] == old(c.proposerDuties.duties)[k])
+//@ ensures forallk(k, old(c.proposerDuties.duties), k <= epoch ==> has(c.proposerDuties.duties, k))
+//@ ensures forallk(k, c.proposerDuties.requestedIdxs, k <= epoch && has(old(c.proposerDuties.requestedIdxs), k) && c.proposerDuties.requestedIdxs[k] == old(c.proposerDuties.requestedIdxs)[k])
+//@ ensures forallk(k, old(c.proposerDuties.requestedIdxs), k <= epoch ==> has(c.proposerDuties.requestedIdxs, k))
+//@ ensures forallk(k, c.proposerDuties.metadata, k <= epoch && has(old(c.proposerDuties.metadata), k))
+//@ loop 1 invariant forallk(k, c.proposerDuties.duties, has(old(c.proposerDuties.duties), k) && c.proposerDuties.duties[k] == old(c.proposerDuties.duties)[k]) && forall(t, 0, $i, $ks[t] > epoch ==> !has(c.proposerDuties.duties, $ks[t])) && forallk(k, old(c.proposerDuties.duties), k <= epoch ==> has(c.proposerDuties.duties, k))
+//@ loop 1 invariant c.proposerDuties.requestedIdxs == old(c.proposerDuties.requestedIdxs) && c.proposerDuties.metadata == old(c.proposerDuties.metadata) && $m == old(c.proposerDuties.duties)
+//@ loop 2 invariant forallk(k, c.proposerDuties.metadata, has(old(c.proposerDuties.metadata), k)) && forall(t, 0, $i, $ks[t] > epoch ==> !has(c.proposerDuties.metadata, $ks[t])) && $m == old(c.proposerDuties.metadata)
+//@ loop 2 invariant c.proposerDuties.requestedIdxs == old(c.proposerDuties.requestedIdxs) && c.proposerDuties.duties == atentry(c.proposerDuties.duties)
+//@ loop 3 invariant forallk(k, c.proposerDuties.requestedIdxs, has(old(c.proposerDuties.requestedIdxs), k) && c.proposerDuties.requestedIdxs[k] == old(c.proposerDuties.requestedIdxs)[k]) && forall(t, 0, $i, $ks[t] > epoch ==> !has(c.proposerDuties.requestedIdxs, $ks[t])) && forallk(k, old(c.proposerDuties.requestedIdxs), k <= epoch ==> has(c.proposerDuties.requestedIdxs, k)) && $m == old(c.proposerDuties.requestedIdxs)
+//@ loop 3 invariant c.proposerDuties.duties == atentry(c.proposerDuties.duties) && c.proposerDuties.metadata == atentry(c.proposerDuties.metadata)
+
+
+//@ func (c *DutiesCache) fetchAttesterDuties
+//@ props C20
+//@ ensures r1 ==> has(c.attesterDuties.duties, epoch) && has(c.attesterDuties.metadata, epoch) && has(c.attesterDuties.requestedIdxs, epoch)
+//@ ensures r1 ==> r0.duties == c.attesterDuties.duties[epoch] && r0.requestedIdxs == c.attesterDuties.requestedIdxs[epoch] && r0.metadata == c.attesterDuties.metadata[epoch]
+//@ ensures !r1 ==> !has(c.attesterDuties.duties, epoch) || !has(c.attesterDuties.metadata, epoch) || !has(c.attesterDuties.requestedIdxs, epoch)
+
+//@ func (c *DutiesCache) storeOrAmendAttesterDuties
+//@ props C20
+//@ atomic
+//@ ensures !has(old(c.attesterDuties.duties), epoch) ==> r1 && c.attesterDuties.duties[epoch] == dutiesForEpoch.duties && c.attesterDuties.requestedIdxs[epoch] == dutiesForEpoch.requestedIdxs && c.attesterDuties.metadata[epoch] == dutiesForEpoch.metadata
+//@ ensures has(old(c.attesterDuties.duties), epoch) ==> forall(a, 0, len(old(c.attesterDuties.duties)[epoch]), c.attesterDuties.duties[epoch][a] == old(c.attesterDuties.duties)[epoch][a]) && len(c.attesterDuties.duties[epoch]) >= len(old(c.attesterDuties.duties)[epoch])
+//@ ensures has(old(c.attesterDuties.duties), epoch) ==> forall(a, 0, len(old(c.attesterDuties.requestedIdxs)[epoch]), c.attesterDuties.requestedIdxs[epoch][a] == old(c.attesterDuties.requestedIdxs)[epoch][a])
+//@ ensures has(old(c.attesterDuties.duties), epoch) ==> forall(r, 0, len(dutiesForEpoch.requestedIdxs), slices.Contains(old(c.attesterDuties.requestedIdxs)[epoch], dutiesForEpoch.requestedIdxs[r]) || exists(a, 0, len(c.attesterDuties.requestedIdxs[epoch]), c.attesterDuties.requestedIdxs[epoch][a] == dutiesForEpoch.requestedIdxs[r]))
+//@ ensures has(old(c.attesterDuties.duties), epoch) ==> forall(r, 0, len(dutiesForEpoch.requestedIdxs), forall(j, 0, len(dutiesForEpoch.duties), !slices.Contains(old(c.attesterDuties.requestedIdxs)[epoch], dutiesForEpoch.requestedIdxs[r]) && dutiesForEpoch.duties[j].ValidatorIndex == dutiesForEpoch.requestedIdxs[r] ==> exists(i, 0, len(c.attesterDuties.duties[epoch]), c.attesterDuties.duties[epoch][i] == dutiesForEpoch.duties[j])))
+//@ ensures all(e2, eth2p0.Epoch, e2 != epoch ==> c.attesterDuties.duties[e2] == old(c.attesterDuties.duties)[e2] && c.attesterDuties.requestedIdxs[e2] == old(c.attesterDuties.requestedIdxs)[e2])
+//@ loop 1 invariant forall(r, 0, $i, !slices.Contains(alreadyRequestedIdxs, dutiesForEpoch.requestedIdxs[r]) ==> exists(n, 0, len(newlyFetchedIdxs), newlyFetchedIdxs[n] == dutiesForEpoch.requestedIdxs[r]))
+//@ loop 2 invariant forall(n, 0, $i, forall(j, 0, len(dutiesForEpoch.duties), dutiesForEpoch.duties[j].ValidatorIndex == newlyFetchedIdxs[n] ==> exists(i, 0, len(newlyFetchedDuties), newlyFetchedDuties[i] == dutiesForEpoch.duties[j])))
+//@ loop 3 invariant forall(n, 0, $i2, forall(j, 0, len(dutiesForEpoch.duties), dutiesForEpoch.duties[j].ValidatorIndex == newlyFetchedIdxs[n] ==> exists(i, 0, len(newlyFetchedDuties), newlyFetchedDuties[i] == dutiesForEpoch.duties[j])))
+//@ loop 3 invariant forall(j, 0, $i, dutiesForEpoch.duties[j].ValidatorIndex == idx ==> exists(i, 0, len(newlyFetchedDuties), newlyFetchedDuties[i] == dutiesForEpoch.duties[j]))
+
+//@ func (c *DutiesCache) trimBeforeAttesterDuties
+//@ props C20
+//@ atomic
+//@ ensures forallk(k, c.attesterDuties.duties, k >= epoch && has(old(c.attesterDuties.duties), k) && c.attesterDuties.duties[k] == old(c.attesterDuties.duties)[k])
+//@ ensures forallk(k, old(c.attesterDuties.duties), k >= epoch ==> has(c.attesterDuties.duties, k))
+//@ ensures forallk(k, c.attesterDuties.requestedIdxs, k >= epoch && has(old(c.attesterDuties.requestedIdxs), k) && c.attesterDuties.requestedIdxs[k] == old(c.attesterDuties.requestedIdxs)[k])
+//@ ensures forallk(k, old(c.attesterDuties.requestedIdxs), k >= epoch ==> has(c.attesterDuties.requestedIdxs, k))
+//@ ensures forallk(k, c.attesterDuties.metadata, k >= epoch && has(old(c.attesterDuties.metadata), k))
+//@ loop 1 invariant forallk(k, c.attesterDuties.duties, has(old(c.attesterDuties.duties), k) && c.attesterDuties.duties[k] == old(c.attesterDuties.duties)[k]) && forall(t, 0, $i, $ks[t] < epoch ==> !has(c.attesterDuties.duties, $ks[t])) && forallk(k, old(c.attesterDuties.duties), k >= epoch ==> has(c.attesterDuties.duties, k))
+//@ loop 1 invariant c.attesterDuties.requestedIdxs == old(c.attesterDuties.requestedIdxs) && c.attesterDuties.metadata == old(c.attesterDuties.metadata) && $m == old(c.attesterDuties.duties)
+//@ loop 2 invariant forallk(k, c.attesterDuties.metadata, has(old(c.attesterDuties.metadata), k)) && forall(t, 0, $i, $ks[t] < epoch ==> !has(c.attesterDuties.metadata, $ks[t])) && $m == old(c.attesterDuties.metadata)
+//@ loop 2 invariant c.attesterDuties.requestedIdxs == old(c.attesterDuties.requestedIdxs) && c.attesterDuties.duties == atentry(c.attesterDuties.duties)
+//@ loop 3 invariant forallk(k, c.attesterDuties.requestedIdxs, has(old(c.attesterDuties.requestedIdxs), k) && c.attesterDuties.requestedIdxs[k] == old(c.attesterDuties.requestedIdxs)[k]) && forall(t, 0, $i, $ks[t] < epoch ==> !has(c.attesterDuties.requestedIdxs, $ks[t])) && forallk(k, old(c.attesterDuties.requestedIdxs), k >= epoch ==> has(c.attesterDuties.requestedIdxs, k)) && $m == old(c.attesterDuties.requestedIdxs)
+//@ loop 3 invariant c.attesterDuties.duties == atentry(c.attesterDuties.duties) && c.attesterDuties.metadata == atentry(c.attesterDuties.metadata)
+
+//@ func (c *DutiesCache) trimAfterAttesterDuties
+//@ props C20
+//@ atomic
+//@ ensures forallk(k, c.attesterDuties.duties, k <= epoch && has(old(c.attesterDuties.duties), k) && c.attesterDuties.duties[k] == old(c.attesterDuties.duties)[k])
+//@ ensures forallk(k, old(c.attesterDuties.duties), k <= epoch ==> has(c.attesterDuties.duties, k))
+//@ ensures forallk(k, c.attesterDuties.requestedIdxs, k <= epoch && has(old(c.attesterDuties.requestedIdxs), k) && c.attesterDuties.requestedIdxs[k] == old(c.attesterDuties.requestedIdxs)[k])
+//@ ensures forallk(k, old(c.attesterDuties.requestedIdxs), k <= epoch ==> has(c.attesterDuties.requestedIdxs, k))
+//@ ensures forallk(k, c.attesterDuties.metadata, k <= epoch && has(old(c.attesterDuties.metadata), k))
+//@ loop 1 invariant forallk(k, c.attesterDuties.duties, has(old(c.attesterDuties.duties), k) && c.attesterDuties.duties[k] == old(c.attesterDuties.duties)[k]) && forall(t, 0, $i, $ks[t] > epoch ==> !has(c.attesterDuties.duties, $ks[t])) && forallk(k, old(c.attesterDuties.duties), k <= epoch ==> has(c.attesterDuties.duties, k))
+//@ loop 1 invariant c.attesterDuties.requestedIdxs == old(c.attesterDuties.requestedIdxs) && c.attesterDuties.metadata == old(c.attesterDuties.metadata) && $m == old(c.attesterDuties.duties)
+//@ loop 2 invariant forallk(k, c.attesterDuties.metadata, has(old(c.attesterDuties.metadata), k)) && forall(t, 0, $i, $ks[t] > epoch ==> !has(c.attesterDuties.metadata, $ks[t])) && $m == old(c.attesterDuties.metadata)
+//@ loop 2 invariant c.attesterDuties.requestedIdxs == old(c.attesterDuties.requestedIdxs) && c.attesterDuties.duties == atentry(c.attesterDuties.duties)
+//@ loop 3 invariant forallk(k, c.attesterDuties.requestedIdxs, has(old(c.attesterDuties.requestedIdxs), k) && c.attesterDuties.requestedIdxs[k] == old(c.attesterDuties.requestedIdxs)[k]) && forall(t, 0, $i, $ks[t] > epoch ==> !has(c.attesterDuties.requestedIdxs, $ks[t])) && forallk(k, old(c.attesterDuties.requestedIdxs), k <= epoch ==> has(c.attesterDuties.requestedIdxs, k)) && $m == old(c.attesterDuties.requestedIdxs)
+//@ loop 3 invariant c.attesterDuties.duties == atentry(c.attesterDuties.duties) && c.attesterDuties.metadata == atentry(c.attesterDuties.metadata)
+
+
+//@ func (c *DutiesCache) fetchSyncDuties
+//@ props C20
+//@ ensures r1 ==> has(c.syncDuties.duties, epoch) && has(c.syncDuties.metadata, epoch) && has(c.syncDuties.requestedIdxs, epoch)
+//@ ensures r1 ==> r0.duties == c.syncDuties.duties[epoch] && r0.requestedIdxs == c.syncDuties.requestedIdxs[epoch] && r0.metadata == c.syncDuties.metadata[epoch]
+//@ ensures !r1 ==> !has(c.syncDuties.duties, epoch) || !has(c.syncDuties.metadata, epoch) || !has(c.syncDuties.requestedIdxs, epoch)
+
+//@ func (c *DutiesCache) storeOrAmendSyncDuties
+//@ props C20
+//@ atomic
+//@ ensures !has(old(c.syncDuties.duties), epoch) ==> r1 && c.syncDuties.duties[epoch] == dutiesForEpoch.duties && c.syncDuties.requestedIdxs[epoch] == dutiesForEpoch.requestedIdxs && c.syncDuties.metadata[epoch] == dutiesForEpoch.metadata
+//@ ensures has(old(c.syncDuties.duties), epoch) ==> forall(a, 0, len(old(c.syncDuties.duties)[epoch]), c.syncDuties.duties[epoch][a] == old(c.syncDuties.duties)[epoch][a]) && len(c.syncDuties.duties[epoch]) >= len(old(c.syncDuties.duties)[epoch])
+//@ ensures has(old(c.syncDuties.duties), epoch) ==> forall(a, 0, len(old(c.syncDuties.requestedIdxs)[epoch]), c.syncDuties.requestedIdxs[epoch][a] == old(c.syncDuties.requestedIdxs)[epoch][a])
+//@ ensures has(old(c.syncDuties.duties), epoch) ==> forall(r, 0, len(dutiesForEpoch.requestedIdxs), slices.Contains(old(c.syncDuties.requestedIdxs)[epoch], dutiesForEpoch.requestedIdxs[r]) || exists(a, 0, len(c.syncDuties.requestedIdxs[epoch]), c.syncDuties.requestedIdxs[epoch][a] == dutiesForEpoch.requestedIdxs[r]))
+//@ ensures has(old(c.syncDuties.duties), epoch) ==> forall(r, 0, len(dutiesForEpoch.requestedIdxs), forall(j, 0, len(dutiesForEpoch.duties), !slices.Contains(old(c.syncDuties.requestedIdxs)[epoch], dutiesForEpoch.requestedIdxs[r]) && dutiesForEpoch.duties[j].ValidatorIndex == dutiesForEpoch.requestedIdxs[r] ==> exists(i, 0, len(c.syncDuties.duties[epoch]), c.syncDuties.duties[epoch][i] == dutiesForEpoch.duties[j])))
+//@ ensures all(e2, eth2p0.Epoch, e2 != epoch ==> c.syncDuties.duties[e2] == old(c.syncDuties.duties)[e2] && c.syncDuties.requestedIdxs[e2] == old(c.syncDuties.requestedIdxs)[e2])
+//@ loop 1 invariant forall(r, 0, $i, !slices.Contains(alreadyRequestedIdxs, dutiesForEpoch.requestedIdxs[r]) ==> exists(n, 0, len(newlyFetchedIdxs), newlyFetchedIdxs[n] == dutiesForEpoch.requestedIdxs[r]))
+//@ loop 2 invariant forall(n, 0, $i, forall(j, 0, len(dutiesForEpoch.duties), dutiesForEpoch.duties[j].ValidatorIndex == newlyFetchedIdxs[n] ==> exists(i, 0, len(newlyFetchedDuties), newlyFetchedDuties[i] == dutiesForEpoch.duties[j])))
+//@ loop 3 invariant forall(n, 0, $i2, forall(j, 0, len(dutiesForEpoch.duties), dutiesForEpoch.duties[j].ValidatorIndex == newlyFetchedIdxs[n] ==> exists(i, 0, len(newlyFetchedDuties), newlyFetchedDuties[i] == dutiesForEpoch.duties[j])))
+//@ loop 3 invariant forall(j, 0, $i, dutiesForEpoch.duties[j].ValidatorIndex == idx ==> exists(i, 0, len(newlyFetchedDuties), newlyFetchedDuties[i] == dutiesForEpoch.duties[j]))
+
+//@ func (c *DutiesCache) trimBeforeSyncDuties
+//@ props C20
+//@ atomic
+//@ ensures forallk(k, c.syncDuties.duties, k >= epoch && has(old(c.syncDuties.duties), k) && c.syncDuties.duties[k] == old(c.syncDuties.duties)[k])
+//@ ensures forallk(k, old(c.syncDuties.duties), k >= epoch ==> has(c.syncDuties.duties, k))
+//@ ensures forallk(k, c.syncDuties.requestedIdxs, k >= epoch && has(old(c.syncDuties.requestedIdxs), k) && c.syncDuties.requestedIdxs[k] == old(c.syncDuties.requestedIdxs)[k])
+//@ ensures forallk(k, old(c.syncDuties.requestedIdxs), k >= epoch ==> has(c.syncDuties.requestedIdxs, k))
+//@ ensures forallk(k, c.syncDuties.metadata, k >= epoch && has(old(c.syncDuties.metadata), k))
+//@ loop 1 invariant forallk(k, c.syncDuties.duties, has(old(c.syncDuties.duties), k) && c.syncDuties.duties[k] == old(c.syncDuties.duties)[k]) && forall(t, 0, $i, $ks[t] < epoch ==> !has(c.syncDuties.duties, $ks[t])) && forallk(k, old(c.syncDuties.duties), k >= epoch ==> has(c.syncDuties.duties, k))
+//@ loop 1 invariant c.syncDuties.requestedIdxs == old(c.syncDuties.requestedIdxs) && c.syncDuties.metadata == old(c.syncDuties.metadata) && $m == old(c.syncDuties.duties)
+//@ loop 2 invariant forallk(k, c.syncDuties.metadata, has(old(c.syncDuties.metadata), k)) && forall(t, 0, $i, $ks[t] < epoch ==> !has(c.syncDuties.metadata, $ks[t])) && $m == old(c.syncDuties.metadata)
+//@ loop 2 invariant c.syncDuties.requestedIdxs == old(c.syncDuties.requestedIdxs) && c.syncDuties.duties == atentry(c.syncDuties.duties)
+//@ loop 3 invariant forallk(k, c.syncDuties.requestedIdxs, has(old(c.syncDuties.requestedIdxs), k) && c.syncDuties.requestedIdxs[k] == old(c.syncDuties.requestedIdxs)[k]) && forall(t, 0, $i, $ks[t] < epoch ==> !has(c.syncDuties.requestedIdxs, $ks[t])) && forallk(k, old(c.syncDuties.requestedIdxs), k >= epoch ==> has(c.syncDuties.requestedIdxs, k)) && $m == old(c.syncDuties.requestedIdxs)
+//@ loop 3 invariant c.syncDuties.duties == atentry(c.syncDuties.duties) && c.syncDuties.metadata == atentry(c.syncDuties.metadata)
+
+//@ func (c *DutiesCache) trimAfterSyncDuties
+//@ props C20
+//@ atomic
+//@ ensures forallk(k, c.syncDuties.duties, k <= epoch && has(old(c.syncDuties.duties), k) && c.syncDuties.duties[k] == old(c.syncDuties.duties)[k])
+//@ ensures forallk(k, old(c.syncDuties.duties), k <= epoch ==> has(c.syncDuties.duties, k))
+//@ ensures forallk(k, c.syncDuties.requestedIdxs, k <= epoch && has(old(c.syncDuties.requestedIdxs), k) && c.syncDuties.requestedIdxs[k] == old(c.syncDuties.requestedIdxs)[k])
+//@ ensures forallk(k, old(c.syncDuties.requestedIdxs), k <= epoch ==> has(c.syncDuties.requestedIdxs, k))
+//@ ensures forallk(k, c.syncDuties.metadata, k <= epoch && has(old(c.syncDuties.metadata), k))
+//@ loop 1 invariant forallk(k, c.syncDuties.duties, has(old(c.syncDuties.duties), k) && c.syncDuties.duties[k] == old(c.syncDuties.duties)[k]) && forall(t, 0, $i, $ks[t] > epoch ==> !has(c.syncDuties.duties, $ks[t])) && forallk(k, old(c.syncDuties.duties), k <= epoch ==> has(c.syncDuties.duties, k))
+//@ loop 1 invariant c.syncDuties.requestedIdxs == old(c.syncDuties.requestedIdxs) && c.syncDuties.metadata == old(c.syncDuties.metadata) && $m == old(c.syncDuties.duties)
+//@ loop 2 invariant forallk(k, c.syncDuties.metadata, has(old(c.syncDuties.metadata), k)) && forall(t, 0, $i, $ks[t] > epoch ==> !has(c.syncDuties.metadata, $ks[t])) && $m == old(c.syncDuties.metadata)
+//@ loop 2 invariant c.syncDuties.requestedIdxs == old(c.syncDuties.requestedIdxs) && c.syncDuties.duties == atentry(c.syncDuties.duties)
+//@ loop 3 invariant forallk(k, c.syncDuties.requestedIdxs, has(old(c.syncDuties.requestedIdxs), k) && c.syncDuties.requestedIdxs[k] == old(c.syncDuties.requestedIdxs)[k]) && forall(t, 0, $i, $ks[t] > epoch ==> !has(c.syncDuties.requestedIdxs, $ks[t])) && forallk(k, old(c.syncDuties.requestedIdxs), k <= epoch ==> has(c.syncDuties.requestedIdxs, k)) && $m == old(c.syncDuties.requestedIdxs)
+//@ loop 3 invariant c.syncDuties.duties == atentry(c.syncDuties.duties) && c.syncDuties.metadata == atentry(c.syncDuties.metadata)
+
+
+//@ func (c *DutiesCache) Trim
+//@ props C20
+//@ callreq c.trimBeforeProposerDuties: epoch >= dutiesCacheTrimThreshold && a1 == epoch - dutiesCacheTrimThreshold
+//@ callreq c.trimBeforeAttesterDuties: epoch >= dutiesCacheTrimThreshold && a1 == epoch - dutiesCacheTrimThreshold
+//@ callreq c.trimBeforeSyncDuties: epoch >= dutiesCacheTrimThreshold && a1 == epoch - dutiesCacheTrimThreshold
+//@ ensures epoch >= dutiesCacheTrimThreshold ==> ncalls(c.trimBeforeProposerDuties) == 1 && ncalls(c.trimBeforeAttesterDuties) == 1 && ncalls(c.trimBeforeSyncDuties) == 1
+//@ ensures epoch < dutiesCacheTrimThreshold ==> ncalls(c.trimBeforeProposerDuties) == 0 && ncalls(c.trimBeforeAttesterDuties) == 0 && ncalls(c.trimBeforeSyncDuties) == 0
+
+//@ func (c *DutiesCache) InvalidateCache
+//@ props C20
+//@ callreq c.trimAfterProposerDuties: a1 == epoch
+//@ callreq c.trimAfterAttesterDuties: a1 == epoch
+//@ callreq c.trimAfterSyncDuties: a1 == epoch
+//@ ensures ncalls(c.trimAfterProposerDuties) == 1 && ncalls(c.trimAfterAttesterDuties) == 1 && ncalls(c.trimAfterSyncDuties) == 1
